@@ -114,6 +114,10 @@ void analyse(const std::string& prop) {
     }
     std::vector<Req*> v;
     for (auto& kv : reqs) v.push_back(&kv.second);
+    if (v.size() > 3000) {   // marathon runs: tens of thousands of requests; only the scheduler-level oracles (deadlock, idle probe, overlap) apply
+        g_extra["histories_too_long_for_pairwise_rules"]++;
+        return;
+    }
 
     // probes
     for (auto* r : v)
@@ -234,13 +238,13 @@ void run_batch(const Json& prog) {
         sim::ev(E_ACQ, 1, 1); sim::set_tag(0);
         mon.enter(true, 1);
     }
-    for (int i = 0; i < k; i++) spawn([&, i] { section(*res, mon, 100 + i, false, i % 2 == 0, yields, &b1); });
+    for (int i = 0; i < k; i++) spawn([&, i] { section(*res, mon, 1000 + i, false, i % 2 == 0, yields, &b1); });
     if (writer_first) {
         sim::wait_until([&] { return parked(0, k); });  // so no write request can lie between them
         if (mid_writer) {
-            spawn([&] { section(*res, mon, 200, true, false, yields, nullptr); });
+            spawn([&] { section(*res, mon, 5000, true, false, yields, nullptr); });
             sim::wait_until([&] { return parked(k, 1); });
-            for (int i = 0; i < m; i++) spawn([&, i] { section(*res, mon, 300 + i, false, i % 2 == 1, yields, &b2); });
+            for (int i = 0; i < m; i++) spawn([&, i] { section(*res, mon, 6000 + i, false, i % 2 == 1, yields, &b2); });
             if (m > 0) sim::wait_until([&] { return parked(k + 1, m); });
         }
         mon.leave(true);
@@ -305,7 +309,43 @@ void run_convoy(const Json& prog) {
     idle_probe(*res, mon, IDLE_BASE);
 }
 
+// Marathon: two writers take the lock in turns tens of thousands of times and each leaves only once the other one is parked
+// again, so the Resource never goes idle and its ticket counters never reset: state that only breaks after N requests in ONE
+// busy period (narrow counters) is reached on purpose.
+void run_marathon(const Json& prog) {
+    auto res = std::make_unique<Resource>();
+    Monitor mon;
+    int n = (int)prog.get("n", 33000);
+    int tid[2] = {-1, -1};
+    int done[2] = {0, 0};
+    auto worker = [&](int me) {
+        for (int i = 0; i < n; i++) {
+            res->lockWrite();
+            mon.enter(true, me + 1);
+            if (i + 1 < n || me == 0) {
+                // stay inside until the other writer is parked behind us (or has finished all its rounds)
+                sim::wait_until([&, me] {
+                    if (done[1 - me]) return true;
+                    auto st = sim::thread_info(tid[1 - me]).state;
+                    return st == sim::T_BLK_COND || st == sim::T_BLK_FUTEX;
+                });
+            }
+            mon.leave(true);
+            res->unlockWrite();
+        }
+        done[me] = 1;
+    };
+    tid[0] = sim::thread_count();
+    std::thread a(worker, 0);
+    tid[1] = sim::thread_count();
+    std::thread b(worker, 1);
+    a.join();
+    b.join();
+    idle_probe(*res, mon, IDLE_BASE);
+}
+
 std::string classify_deadlock(const Json& prog, const std::vector<sim::ThreadInfo>& ti) {
+    if (prog.gets("kind", "random") == "marathon") return "lost-wakeup";
     bool batch = prog.gets("kind", "random") == "batch";
     if (batch) return "batch-deadlock";
     if (prog.gets("kind", "random") == "convoy") return "lost-wakeup";
@@ -346,6 +386,24 @@ bool owns(const std::string& prop, const std::string& cls) {
 void generate(sim::Rng& g, const std::string& prop, const std::string& tier, Json& program, sim::Config& cfg) {
     bool thorough = tier == "thorough";
     program = Json::object();
+    // two rare, expensive scenarios for state that only breaks at scale (a holder count or a ticket that is too narrow)
+    bool crowd = (prop == "C01" || prop == "C12") && g.below(4000) == 0;
+    bool marathon = (prop == "C02" || prop == "C01") && g.below(12000) == 0;
+    if (crowd) {
+        program.set("kind", "batch").set("k", 257 + (int)g.below(40)).set("writer_first", 1).set("mid_writer", 1).set("m", 0).set("y", 0);
+        drv::draw_sched(g, cfg, false, 4000);
+        cfg.step_cap = 200000;
+        return;
+    }
+    if (marathon) {
+        program.set("kind", "marathon").set("n", 33000 + (int)g.below(2000));
+        drv::draw_sched(g, cfg, false, 400000);
+        cfg.strategy = sim::STICKY;   // (PCT / starvation windows are meaningless over half a million steps)
+        cfg.sticky_p = 0.8;
+        cfg.spurious_rate = 0;
+        cfg.step_cap = 4000000;
+        return;
+    }
     bool batch = (prop == "C12") && g.below(2) == 0;
     bool convoy = !batch && (prop == "C03" || prop == "C12" || prop == "C01") && g.below(prop == "C03" ? 3 : 8) == 0;
     int est = 100;
@@ -415,16 +473,19 @@ void execute(const Json& program, const sim::Config& cfg, const std::string& pro
         try {
             if (batch) run_batch(program);
             else if (program.gets("kind", "random") == "convoy") run_convoy(program);
+            else if (program.gets("kind", "random") == "marathon") run_marathon(program);
             else run_random(program);
         } catch (const std::exception& e) {  // valid use of the API must not throw: an escaping exception is an outcome to report, not a harness error
             sim::violation("unexpected-exception", std::string("exception escaped from tulz under valid use: ") + e.what());
         }
     });
     analyse(prop);
-    g_extra[batch ? "runs_batch_scenario" : program.gets("kind", "random") == "convoy" ? "runs_convoy_scenario" : "runs_random_program"]++;
+    g_extra[batch ? (program.get("k", 0) > 200 ? "runs_crowd_scenario_over_256_readers" : "runs_batch_scenario")
+            : program.gets("kind", "random") == "convoy" ? "runs_convoy_scenario" : program.gets("kind", "random") == "marathon" ? "runs_marathon_scenario" : "runs_random_program"]++;
 }
 
 std::string describe(const Json& p) {
+    if (p.gets("kind", "random") == "marathon") return "marathon: two writers alternate " + std::to_string(p.get("n", 0)) + " times each without the Resource ever going idle";
     if (p.gets("kind", "random") == "convoy") return "convoy behind a writer, arrivals in order: " + p.gets("script", "") + (p.get("y", 0) ? " (y1)" : "");
     if (p.gets("kind", "random") == "batch") {
         char b[160];
@@ -451,6 +512,11 @@ std::string describe(const Json& p) {
 
 std::vector<Json> shrink(const Json& p) {
     std::vector<Json> out;
+    if (p.gets("kind", "random") == "marathon") {
+        int64_t n = p.get("n", 0);
+        for (int64_t m : {n / 2, n - 1000, n - 100}) if (m > 10 && m < n) { Json c = p; c.set("n", m); out.push_back(c); }
+        return out;
+    }
     if (p.gets("kind", "random") == "convoy") {
         std::string sc = p.gets("script", "");
         for (size_t i = 0; i < sc.size(); i++) { Json c = p; std::string t = sc; t.erase(i, 1); if (!t.empty()) { c.set("script", t); out.push_back(c); } }
